@@ -38,6 +38,7 @@ type Contract struct {
 	loops    map[int][]*Clause // invariants + decreases per loop ordinal
 	assigns  []string          // raw assign items; nil = not given (inferred)
 	hasAssgn bool
+	inferRest bool // assigns ..., inferred
 	inline   bool
 	trusted  bool
 	nopanic  []string // property ids claiming the safe.* obligations
@@ -242,6 +243,12 @@ func (cs *ContractSet) LoadFile(pkgPath, path string) error {
 				rest := strings.TrimSpace(strings.TrimPrefix(t, "assigns"))
 				if rest != "nothing" && rest != "" {
 					for _, it := range strings.Split(rest, ",") {
+						if strings.TrimSpace(it) == "inferred" {
+							// the listed (ghost) locations plus whatever the body / the
+							// implementations are inferred to write
+							cur.inferRest = true
+							continue
+						}
 						cur.assigns = append(cur.assigns, strings.TrimSpace(it))
 					}
 				}
